@@ -31,7 +31,7 @@ Section Ops.
   Notation inline_comps := (inline_comps P T tmul act tneg).
   Notation inline_glyph := (inline_glyph P T tmul act tneg tovf).
   Notation flat := (flat P T tmul).
-  Notation flatten_glyph := (flatten_glyph P T tmul).
+  Notation flatten_glyph := (flatten_glyph P T tmul tid act tneg tovf teqb).
   Notation keys_from := (keys_from T tmul).
   Notation bfs := (bfs P T tmul act tneg teqb).
   Notation decompose := (decompose P T tmul tid act tneg tovf teqb).
@@ -173,16 +173,6 @@ Section Ops.
         * simpl in H. apply flat_lost_true in H. discriminate.
   Qed.
 
-  Lemma flatten_looks fuel F g g' cs :
-    flatten_glyph fuel F g = Some (g', false) -> gres F g cs -> gres F g' cs.
-  Proof.
-    intros H (k & Hk & ->). unfold Model.flatten_glyph in H.
-    destruct (g_comps g) as [|p l] eqn:Eg.
-    - inversion H; subst. exists k; rewrite Eg; auto.
-    - destruct (flat fuel F (p :: l) [] false) as [[s d]|] eqn:Es; [|discriminate]. inversion H; subst; simpl.
-      exists k; split; auto. apply (flat_sem fuel F _ _ _ [] k Es); auto. constructor.
-  Qed.
-
   Lemma flat_rank (r : name -> nat) F m fuel : wf r F -> forall frontier simple d out d',
     flat fuel F frontier simple d = Some (out, d') ->
     (forall c t, In (c, t) frontier -> r c < m) -> (forall c t, In (c, t) simple -> r c < m) ->
@@ -265,6 +255,46 @@ Section Ops.
     exists ((g_contours g ++ out) ++ []); split; [exists []; split; [constructor|reflexivity]|].
     rewrite app_nil_r. apply ceqs_app; [apply ceqs_refl|].
     apply (bfs_sem fuel F _ _ [] out k E). rewrite <- (map_tr_id k). apply rkeys_from; auto.
+  Qed.
+
+  Lemma decompose_shape fuel F g g' d :
+    decompose fuel F g = Some (g', d) -> g_comps g' = [] /\ g_adv g' = g_adv g /\ g_export g' = g_export g.
+  Proof.
+    unfold Model.decompose. destruct (bfs _ _ _ _ _ _) as [[k d0]|]; [|discriminate].
+    intro H; inversion H; subst; simpl; auto.
+  Qed.
+
+  (* flatten_glyph as a whole: the walk, then decomposition when the composed 2x2
+     leaves the F2Dot14 range *)
+  Lemma flatten_looks fuel F g g' cs :
+    flatten_glyph fuel F g = Some (g', false) -> gres F g cs -> exists cs', gres F g' cs' /\ ceqs cs cs'.
+  Proof.
+    intros H Hg. unfold Model.flatten_glyph in H.
+    destruct (g_comps g) as [|p l] eqn:Eg.
+    - inversion H; subst. exists cs; split; auto using ceqs_refl.
+    - destruct (flat fuel F (p :: l) [] false) as [[s lost]|] eqn:Es; [|discriminate].
+      assert (lost = false -> gres F (glyph_new P T tovf (g_contours g) s (g_adv g) (g_export g)) cs) as H1.
+      { intros ->. destruct Hg as (k & Hk & ->). exists k; split; auto. simpl.
+        rewrite Eg in Hk. apply (flat_sem fuel F _ _ _ [] k Es); auto. constructor. }
+      destruct (g_ovf (glyph_new P T tovf (g_contours g) s (g_adv g) (g_export g))).
+      + destruct (decompose fuel F _) as [[g2 dup]|] eqn:Ed; [|discriminate].
+        injection H as Hg2 Hd. apply orb_false_iff in Hd as (Hl & Hdup). subst.
+        eapply decompose_looks; eauto.
+      + injection H as Hg1 Hl. subst. exists cs; split; auto using ceqs_refl.
+  Qed.
+
+  Lemma flatten_shape fuel F g g' d :
+    flatten_glyph fuel F g = Some (g', d) ->
+    g_adv g' = g_adv g /\ g_export g' = g_export g /\
+    (g' = g \/ g_comps g' = [] \/ exists lost, flat fuel F (g_comps g) [] false = Some (g_comps g', lost)).
+  Proof.
+    intros H. unfold Model.flatten_glyph in H.
+    destruct (g_comps g) as [|p l] eqn:Eg; [inversion H; subst; auto|].
+    destruct (flat fuel F (p :: l) [] false) as [[s lost]|] eqn:Es; [|discriminate].
+    destruct (g_ovf (glyph_new P T tovf (g_contours g) s (g_adv g) (g_export g))).
+    - destruct (decompose fuel F _) as [[g2 dup]|] eqn:Ed; [|discriminate].
+      inversion H; subst. destruct (decompose_shape _ _ _ _ _ Ed) as (Hc & Ha & He). simpl in *. auto.
+    - inversion H; subst; simpl. repeat split; auto. right; right. exists lost; auto.
   Qed.
 
   (* whatever the visited set does, decomposition invents no contour *)
